@@ -125,6 +125,7 @@ class Inliner:
         self.keep = set(keep)  # def paths never inlined
         self.recursive = []    # (chain, callee) pairs where recursion was cut
         self.unresolved = []   # local-looking calls we could not resolve
+        self.lazy_unexpanded = []  # (entry, block, what): effectful closures run by library iterator code we do not expand
 
     # -------------------------------------------------------- resolution
     def resolve(self, callee, self_subst):
@@ -537,6 +538,16 @@ class Inliner:
                 return r
         if callee is not None and callee["def"] == "core::iter::Iterator::for_each":
             return self._expand_for_each(b, t, callee, locals_, blocks)
+        if callee is not None and callee["def"] == "core::iter::Iterator::next":
+            r = self._expand_lazy_next(b, t, callee, locals_, blocks)
+            if r is not None:
+                return r
+        if callee is not None and callee["def"] in ("core::iter::Iterator::collect", "core::iter::Extend::extend"):
+            r = self._expand_lazy_collect(b, t, callee, locals_, blocks)
+            if r is not None:
+                return r
+        if callee is not None:
+            self._note_unexpanded_consumer(b, t, callee, locals_, blocks)
         if callee is not None and callee["def"] in self.OPT_ADAPTORS:
             return self._expand_option_adaptor(b, t, callee, locals_, blocks)
         if callee is not None and callee["def"] == "core::bool::<impl bool>::then_some":
@@ -604,6 +615,336 @@ class Inliner:
         blocks[b]["stmts"].append({"k": "assign", "dst": {"l": dl, "p": []}, "rv": {"k": "discr", "pl": copy.deepcopy(recv)}, **span})
         blocks[b]["term"] = {"k": "switch", "discr": {"k": "move", "pl": {"l": dl, "p": []}}, "targets": sw, "otherwise": other, **span, "adaptor": d}
         return [nb0, nb0 + 1]
+
+
+    # ------------------------------------------------ lazy iterator pipelines with effectful closures
+    # `iter.filter(p).filter_map(f).collect()` runs p and f inside library code.  When such a closure has
+    # effects (writes through pointers, moves out of boxes, drops user values, writes tables ...), the
+    # pipeline is expanded into the loop it abbreviates so that the closure bodies are inlined at the place
+    # where they run.  Pipelines of pure closures keep their summarised treatment in the interpreter.
+    LAZY_STAGES = {
+        "core::iter::Iterator::filter": "filter", "core::iter::Iterator::map": "map", "core::iter::Iterator::filter_map": "filter_map",
+        "core::iter::Iterator::inspect": "inspect", "core::iter::Iterator::copied": "copied", "core::iter::Iterator::cloned": "copied",
+    }
+    LAZY_IDENTITY = ("core::iter::IntoIterator::into_iter", "core::iter::Iterator::by_ref", "core::iter::Iterator::fuse")
+    EFFECT_CALLS = (
+        ("core::cell::Cell::<T>::", ("set", "replace", "update", "take", "swap")),
+        ("core::ptr::", ("read", "write", "replace", "drop_in_place", "copy", "copy_nonoverlapping", "swap", "write_bytes")),
+        ("core::ptr::mut_ptr::<impl *mut T>::", ("read", "write", "replace", "drop_in_place", "copy_from", "copy_to", "copy_from_nonoverlapping", "copy_to_nonoverlapping", "swap", "write_bytes")),
+        ("core::ptr::const_ptr::<impl *const T>::", ("read", "copy_to", "copy_to_nonoverlapping")),
+        ("core::mem::", ("replace", "take", "swap", "forget", "drop")),
+        ("core::mem::MaybeUninit::<T>::", ("assume_init_read", "assume_init_drop", "write", "assume_init")),
+        ("core::mem::ManuallyDrop::<T>::", ("drop", "take", "into_inner")),
+        ("core::cell::RefCell::<T>::", ("borrow_mut", "replace", "take", "swap", "replace_with", "try_borrow_mut", "get_mut", "as_ptr")),
+        ("alloc::vec::Vec::<T", ("push", "pop", "insert", "remove", "clear", "truncate", "drain", "retain", "append", "extend_from_slice", "swap_remove", "dedup", "resize")),
+        ("alloc::collections::VecDeque::<T", ("push_back", "push_front", "pop_back", "pop_front", "clear", "drain", "retain", "append")),
+        ("alloc::alloc::", ("dealloc", "alloc", "realloc")),
+        ("core::alloc::Allocator::", ("deallocate", "allocate", "grow", "shrink")),
+        ("alloc::boxed::Box::<T", ("new", "from_raw", "new_uninit")),
+    )
+    HASH_WRITERS = ("insert", "remove", "clear", "entry", "extract_if", "retain", "drain", "get_mut", "iter_mut", "values_mut", "remove_entry",
+                    "or_insert", "or_default", "and_modify", "or_insert_with", "take", "replace", "extend")
+
+    def _effectful(self, fty):
+        """Does calling this closure / fn item do anything but compute a value?"""
+        path = fty.get("closure") or fty.get("fndef")
+        if path is None:
+            return True
+        cache = self.__dict__.setdefault("_eff_cache", {})
+        if path in cache:
+            return cache[path]
+        f = self.facts.fn(path)
+        if f is None:
+            cache[path] = False     # foreign fn item (Option::is_some, Clone::clone of a Copy key ...): library code, assumption A2
+            return False
+        cache[path] = True          # cut recursion pessimistically
+        saved = self._cur
+        sub = Inliner(self.facts, self.keep)
+        sub._eff_cache = cache
+        g = sub.inline(f)
+        self._cur = saved
+        eff = False
+        for blk in g.blocks:
+            if blk["cleanup"]:
+                continue
+            for st in blk["stmts"]:
+                if st["k"] == "assign" and any(e == "*" for e in st["dst"]["p"]) and not st.get("macro"):
+                    eff = True
+            t = blk["term"]
+            if t["k"] == "drop" and (t["ty"].get("dp") or t["ty"].get("adt") in self.HANDLES or (t["ty"].get("adt") or "").startswith("core::cell::Ref")):
+                eff = True
+            if t["k"] == "call" and t.get("callee"):
+                if t.get("macro") and "log" in str(t.get("macro")):
+                    continue
+                d = t["callee"]["def"]
+                m = d.rsplit("::", 1)[-1]
+                for pre, names in self.EFFECT_CALLS:
+                    if d.startswith(pre) and m in names:
+                        eff = True
+                if d.startswith("hashbrown::") and m in self.HASH_WRITERS:
+                    eff = True
+                if t["callee"].get("trait") and not t["callee"].get("resolved") and (t["callee"].get("self_ty") or {}).get("hp") and not d.startswith("core::ops::Fn") \
+                        and not d.startswith("core::iter::") and not d.startswith("core::ops::Deref") and d not in ("core::clone::Clone::clone", "core::cmp::PartialEq::eq", "core::cmp::PartialEq::ne"):
+                    eff = True   # user trait method on a generic parameter
+            elif t["k"] == "call":
+                eff = True       # indirect call
+        cache[path] = eff
+        return eff
+
+    def _local_def(self, l, blocks):
+        """The single definition of local l: ('stmt', rvalue) | ('call', terminator) | None."""
+        found = None
+        for blk in blocks:
+            for st in blk["stmts"]:
+                if st["k"] == "assign" and st["dst"]["l"] == l:
+                    if st["dst"]["p"] or found is not None:
+                        return None
+                    found = ("stmt", st["rv"])
+            t = blk["term"]
+            if t["k"] == "call" and t["dst"]["l"] == l:
+                if t["dst"]["p"] or found is not None:
+                    return None
+                found = ("call", t)
+        return found
+
+    def _lazy_chain(self, op, locals_, blocks):
+        """Stages of the iterator value behind operand `op`, outermost first:
+        [(kind, source local, closure operand | None, closure type | None), ...]; the last source local is the base."""
+        if op.get("k") not in ("copy", "move") or op["pl"]["p"]:
+            return None
+        l = op["pl"]["l"]
+        stages = []
+        for _ in range(24):
+            d = self._local_def(l, blocks)
+            if d is None:
+                break
+            if d[0] == "stmt":
+                rv = d[1]
+                if rv["k"] in ("ref", "addr") and rv["pl"]["p"] in ([], ["*"]):
+                    l = rv["pl"]["l"]
+                    continue
+                if rv["k"] == "use" and rv["op"].get("k") in ("copy", "move") and not rv["op"]["pl"]["p"]:
+                    l = rv["op"]["pl"]["l"]
+                    continue
+                if rv["k"] == "copyderef" and not rv["pl"]["p"]:
+                    l = rv["pl"]["l"]
+                    continue
+                break
+            t = d[1]
+            cal = t.get("callee") or {}
+            dd = cal.get("def")
+            a = t["args"]
+            if not a or a[0].get("k") not in ("copy", "move") or a[0]["pl"]["p"]:
+                break
+            if dd in self.LAZY_IDENTITY:
+                # identity only when the argument is itself an adaptor value we can follow
+                inner = self._local_def(a[0]["pl"]["l"], blocks)
+                nxt = a[0]["pl"]["l"]
+                probe = self._peek_stage(nxt, blocks)
+                if probe:
+                    l = nxt
+                    continue
+                break
+            if dd in self.LAZY_STAGES:
+                kind = self.LAZY_STAGES[dd]
+                cop = a[1] if len(a) > 1 else None
+                cty = None
+                if cop is not None:
+                    cty = self._op_ty(cop, locals_)
+                    if cty is None or cty.get("k") not in ("closure", "fndef"):
+                        cty = self._captured_callee(cop, locals_, blocks)
+                stages.append((kind, l, a[0]["pl"]["l"], cop, cty))
+                l = a[0]["pl"]["l"]
+                continue
+            break
+        return stages
+
+    def _peek_stage(self, l, blocks):
+        """Is local l (through copies / reborrows) the result of a lazy adaptor constructor?"""
+        for _ in range(12):
+            d = self._local_def(l, blocks)
+            if d is None:
+                return False
+            if d[0] == "stmt":
+                rv = d[1]
+                if rv["k"] in ("ref", "addr") and rv["pl"]["p"] in ([], ["*"]):
+                    l = rv["pl"]["l"]
+                    continue
+                if rv["k"] == "use" and rv["op"].get("k") in ("copy", "move") and not rv["op"]["pl"]["p"]:
+                    l = rv["op"]["pl"]["l"]
+                    continue
+                return False
+            dd = (d[1].get("callee") or {}).get("def")
+            if dd in self.LAZY_STAGES:
+                return True
+            if dd in self.LAZY_IDENTITY and d[1]["args"] and d[1]["args"][0].get("k") in ("copy", "move") and not d[1]["args"][0]["pl"]["p"]:
+                l = d[1]["args"][0]["pl"]["l"]
+                continue
+            return False
+        return False
+
+    def _chain_effectful(self, stages):
+        return any(cty is not None and self._effectful(cty) for (_k, _l, _i, _c, cty) in stages) or \
+            any(k in ("filter", "map", "filter_map", "inspect") and cty is None for (k, _l, _i, _c, cty) in stages)
+
+    OPT_TY = {"s": "core::option::Option<?>", "k": "adt", "adt": "core::option::Option", "peel": 0, "hp": False, "nd": False, "dp": 0, "dpf": 0, "dtor": False}
+    UNK_TY = {"s": "?", "k": "other", "hp": False, "nd": False, "dp": 0}
+
+    def _next_on(self, inner_local, dst_local, target, unwind, cleanup, span, locals_):
+        """Block: dst_local = Iterator::next(&mut inner_local) -> target"""
+        rl = len(locals_)
+        locals_.append({"ty": {"s": "&mut ?", "k": "refmut", "hp": False, "nd": False, "dp": 0}, "name": None})
+        callee = {"def": "core::iter::Iterator::next", "full": "core::iter::Iterator::next", "crate": "core", "args": [], "targs": [], "local": False,
+                  "trait": "core::iter::Iterator", "self_ty": locals_[inner_local]["ty"]}
+        return {"cleanup": cleanup, "stmts": [{"k": "assign", "dst": {"l": rl, "p": []}, "rv": {"k": "ref", "mut": True, "pl": {"l": inner_local, "p": []}}, **span}],
+                "term": {"k": "call", "callee": callee, "fnop": {"k": "const", "ty": self.UNK_TY, "desc": "next"}, "args": [{"k": "move", "pl": {"l": rl, "p": []}}],
+                         "argtys": [{"s": "&mut ?", "k": "refmut"}], "dst": {"l": dst_local, "p": []}, "target": target, "unwind": unwind, **span, "macro": span.get("macro") or "Desugaring(ForLoop)"}}
+
+    def _expand_lazy_next(self, b, t, callee, locals_, blocks):
+        """`Iterator::next` on a pipeline whose outermost expandable stage (or one below it) has an effectful closure."""
+        stages = self._lazy_chain(t["args"][0], locals_, blocks) if t["args"] else None
+        if not stages or not self._chain_effectful(stages):
+            return None
+        kind, _self_l, inner, cop, cty = stages[0]
+        if kind != "copied" and (cty is None or cop is None):
+            self.lazy_unexpanded.append((self._cur, b, "next on `%s` with an unknown closure" % kind))
+            return None
+        span = {k: t.get(k) for k in ("file", "line", "exp", "macro")}
+        cleanup = blocks[b]["cleanup"]
+        unwind = t["unwind"]
+        goto_t = {"k": "goto", "target": t["target"], **span} if t["target"] is not None else {"k": "unreachable", **span}
+        nl = lambda ty: (locals_.append({"ty": ty, "name": None}), len(locals_) - 1)[1]
+        x = nl(dict(self.OPT_TY))
+        dl = nl({"s": "isize", "k": "int", "hp": False, "nd": False, "dp": 0})
+        n0 = len(blocks)
+        hdr, sw, call, chk, some, none = n0, n0 + 1, n0 + 2, n0 + 3, n0 + 4, n0 + 5
+        blocks.append(self._next_on(inner, x, sw, unwind, cleanup, span, locals_))
+        blocks.append({"cleanup": cleanup, "stmts": [{"k": "assign", "dst": {"l": dl, "p": []}, "rv": {"k": "discr", "pl": {"l": x, "p": []}}, **span}],
+                       "term": {"k": "switch", "discr": {"k": "move", "pl": {"l": dl, "p": []}}, "targets": [["0", none], ["1", call]], "otherwise": none, **span}})
+        payload_pl = {"l": x, "p": [{"dc": "Some", "vi": 1}, {"f": 0, "n": "0", "of": ""}]}
+        none_rv = {"k": "agg", "ak": "adt", "name": "core::option::Option", "variant": "None", "vidx": 0, "fields": [], "ops": []}
+        if kind == "copied":
+            pl = nl(dict(self.UNK_TY))
+            dpl = copy.deepcopy(payload_pl)
+            dpl["p"].append("*")
+            blocks.append({"cleanup": cleanup, "stmts": [
+                {"k": "assign", "dst": {"l": pl, "p": []}, "rv": {"k": "use", "op": {"k": "copy", "pl": dpl}}, **span},
+                {"k": "assign", "dst": copy.deepcopy(t["dst"]), "rv": {"k": "agg", "ak": "adt", "name": "core::option::Option", "variant": "Some", "vidx": 1, "fields": ["0"], "ops": [{"k": "move", "pl": {"l": pl, "p": []}}]}, **span}],
+                "term": dict(goto_t)})
+            blocks.append({"cleanup": cleanup, "stmts": [], "term": {"k": "unreachable", **span}})
+            blocks.append({"cleanup": cleanup, "stmts": [], "term": {"k": "unreachable", **span}})
+            blocks.append({"cleanup": cleanup, "stmts": [{"k": "assign", "dst": copy.deepcopy(t["dst"]), "rv": none_rv, **span}], "term": dict(goto_t)})
+            blocks[b]["term"] = {"k": "goto", "target": hdr, **span, "adaptor": "lazy-next:" + kind, "lazy": {"hdr": hdr, "target": t["target"], "none": none, "some": call}}
+            blocks[hdr]["term"]["lazy_inner"] = True
+            if t.get("lazy_inner"):
+                blocks[b]["term"]["lazy_inner"] = True
+            return [hdr, sw, call, chk, some, none]
+        # closure call
+        fl = nl(cty)
+        frl = nl({"s": "&mut ?", "k": "refmut", "hp": False, "nd": False, "dp": 0})
+        tl = nl({"s": "(?,)", "k": "tuple", "hp": False, "nd": False, "dp": 0})
+        arg = nl(dict(self.UNK_TY))
+        by_ref = kind in ("filter", "inspect")
+        res_ty = {"s": "bool", "k": "bool", "hp": False, "nd": False, "dp": 0} if kind == "filter" else (dict(self.OPT_TY) if kind == "filter_map" else ({"s": "()", "k": "tuple", "hp": False, "nd": False, "dp": 0} if kind == "inspect" else dict(self.UNK_TY)))
+        y = nl(res_ty)
+        arg_stmt = {"k": "assign", "dst": {"l": arg, "p": []}, "rv": ({"k": "ref", "mut": False, "pl": copy.deepcopy(payload_pl)} if by_ref else {"k": "use", "op": {"k": "move", "pl": copy.deepcopy(payload_pl)}}), **span}
+        blocks.append({"cleanup": cleanup, "stmts": [
+            arg_stmt,
+            {"k": "assign", "dst": {"l": tl, "p": []}, "rv": {"k": "agg", "ak": "tuple", "name": "", "variant": "", "vidx": 0, "fields": [], "ops": [{"k": "move", "pl": {"l": arg, "p": []}}]}, **span},
+            {"k": "assign", "dst": {"l": fl, "p": []}, "rv": {"k": "use", "op": copy.deepcopy(cop)}, **span},
+            {"k": "assign", "dst": {"l": frl, "p": []}, "rv": {"k": "ref", "mut": True, "pl": {"l": fl, "p": []}}, **span}],
+            "term": {"k": "call", "callee": {"def": "core::ops::FnMut::call_mut", "full": "core::ops::FnMut::call_mut", "crate": "core", "args": [], "targs": [], "local": False, "trait": "core::ops::FnMut"},
+                     "fnop": {"k": "const", "ty": self.UNK_TY, "desc": "call_mut"}, "args": [{"k": "move", "pl": {"l": frl, "p": []}}, {"k": "move", "pl": {"l": tl, "p": []}}],
+                     "argtys": [cty, {"s": "(?,)", "k": "tuple"}], "dst": {"l": y, "p": []}, "target": chk, "unwind": unwind, **span}})
+        if kind == "filter":
+            blocks.append({"cleanup": cleanup, "stmts": [], "term": {"k": "switch", "discr": {"k": "move", "pl": {"l": y, "p": []}}, "targets": [["0", hdr]], "otherwise": some, **span}})
+            blocks.append({"cleanup": cleanup, "stmts": [{"k": "assign", "dst": copy.deepcopy(t["dst"]), "rv": {"k": "use", "op": {"k": "move", "pl": {"l": x, "p": []}}}, **span}], "term": dict(goto_t)})
+        elif kind == "filter_map":
+            d2 = nl({"s": "isize", "k": "int", "hp": False, "nd": False, "dp": 0})
+            blocks.append({"cleanup": cleanup, "stmts": [{"k": "assign", "dst": {"l": d2, "p": []}, "rv": {"k": "discr", "pl": {"l": y, "p": []}}, **span}],
+                           "term": {"k": "switch", "discr": {"k": "move", "pl": {"l": d2, "p": []}}, "targets": [["1", some]], "otherwise": hdr, **span}})
+            blocks.append({"cleanup": cleanup, "stmts": [{"k": "assign", "dst": copy.deepcopy(t["dst"]), "rv": {"k": "use", "op": {"k": "move", "pl": {"l": y, "p": []}}}, **span}], "term": dict(goto_t)})
+        elif kind == "map":
+            blocks.append({"cleanup": cleanup, "stmts": [], "term": {"k": "goto", "target": some, **span}})
+            blocks.append({"cleanup": cleanup, "stmts": [{"k": "assign", "dst": copy.deepcopy(t["dst"]), "rv": {"k": "agg", "ak": "adt", "name": "core::option::Option", "variant": "Some", "vidx": 1, "fields": ["0"], "ops": [{"k": "move", "pl": {"l": y, "p": []}}]}, **span}], "term": dict(goto_t)})
+        else:  # inspect
+            blocks.append({"cleanup": cleanup, "stmts": [], "term": {"k": "goto", "target": some, **span}})
+            blocks.append({"cleanup": cleanup, "stmts": [{"k": "assign", "dst": copy.deepcopy(t["dst"]), "rv": {"k": "use", "op": {"k": "move", "pl": {"l": x, "p": []}}}, **span}], "term": dict(goto_t)})
+        blocks.append({"cleanup": cleanup, "stmts": [{"k": "assign", "dst": copy.deepcopy(t["dst"]), "rv": none_rv, **span}], "term": dict(goto_t)})
+        blocks[b]["term"] = {"k": "goto", "target": hdr, **span, "adaptor": "lazy-next:" + kind, "lazy": {"hdr": hdr, "target": t["target"], "none": none, "some": some}}
+        blocks[hdr]["term"]["lazy_inner"] = True
+        if t.get("lazy_inner"):
+            blocks[b]["term"]["lazy_inner"] = True
+        return [hdr, sw, call, chk, some, none]
+
+    def _expand_lazy_collect(self, b, t, callee, locals_, blocks):
+        """`pipeline.collect::<Vec<_>>()` / `vec.extend(pipeline)` where the pipeline has an effectful closure:
+        loop { match pipeline.next() { Some(x) => vec.push(x), None => break } }"""
+        d = callee["def"]
+        a = t["args"]
+        if d == "core::iter::Iterator::collect":
+            src = a[0] if a else None
+            into_vec = (locals_[t["dst"]["l"]]["ty"].get("adt") == "alloc::vec::Vec" and locals_[t["dst"]["l"]]["ty"].get("peel", 0) == 0) if not t["dst"]["p"] else False
+        else:
+            src = a[1] if len(a) > 1 else None
+            into_vec = (callee.get("self_ty") or {}).get("adt") == "alloc::vec::Vec"
+        if src is None:
+            return None
+        stages = self._lazy_chain(src, locals_, blocks)
+        if not stages or not self._chain_effectful(stages):
+            return None
+        if not into_vec or src.get("k") not in ("copy", "move") or src["pl"]["p"]:
+            self.lazy_unexpanded.append((self._cur, b, "`%s` of a pipeline with an effectful closure" % d.rsplit("::", 1)[1]))
+            return None
+        span = {k: t.get(k) for k in ("file", "line", "exp", "macro")}
+        cleanup = blocks[b]["cleanup"]
+        unwind = t["unwind"]
+        goto_t = {"k": "goto", "target": t["target"], **span} if t["target"] is not None else {"k": "unreachable", **span}
+        nl = lambda ty: (locals_.append({"ty": ty, "name": None}), len(locals_) - 1)[1]
+        it = src["pl"]["l"]
+        x = nl(dict(self.OPT_TY))
+        dl = nl({"s": "isize", "k": "int", "hp": False, "nd": False, "dp": 0})
+        pl = nl(dict(self.UNK_TY))
+        ul = nl({"s": "()", "k": "tuple", "hp": False, "nd": False, "dp": 0})
+        vr = nl({"s": "&mut alloc::vec::Vec<?>", "k": "refmut", "adt": "alloc::vec::Vec", "peel": 1, "hp": False, "nd": False, "dp": 0})
+        n0 = len(blocks)
+        pre, hdr, sw, push, done = n0, n0 + 1, n0 + 2, n0 + 3, n0 + 4
+        vec_callee = lambda m: {"def": "alloc::vec::Vec::<T>::" + m if m == "new" else "alloc::vec::Vec::<T, A>::" + m, "full": "alloc::vec::Vec::" + m, "crate": "alloc", "args": [], "targs": [], "local": False}
+        if d == "core::iter::Iterator::collect":
+            vloc = t["dst"]["l"]
+            blocks.append({"cleanup": cleanup, "stmts": [], "term": {"k": "call", "callee": vec_callee("new"), "fnop": {"k": "const", "ty": self.UNK_TY, "desc": "Vec::new"}, "args": [], "argtys": [],
+                                                                   "dst": {"l": vloc, "p": []}, "target": hdr, "unwind": unwind, **span}})
+            vec_ref = {"k": "ref", "mut": True, "pl": {"l": vloc, "p": []}}
+            done_stmts = []
+        else:
+            blocks.append({"cleanup": cleanup, "stmts": [], "term": {"k": "goto", "target": hdr, **span}})
+            vec_ref = {"k": "use", "op": copy.deepcopy(a[0])} if a[0].get("k") == "copy" else {"k": "use", "op": {"k": "copy", "pl": copy.deepcopy(a[0]["pl"])}}
+            done_stmts = [{"k": "assign", "dst": copy.deepcopy(t["dst"]), "rv": {"k": "use", "op": {"k": "const", "ty": {"s": "()", "k": "tuple"}, "desc": "()"}}, **span}]
+        blocks.append(self._next_on(it, x, sw, unwind, cleanup, span, locals_))
+        blocks.append({"cleanup": cleanup, "stmts": [{"k": "assign", "dst": {"l": dl, "p": []}, "rv": {"k": "discr", "pl": {"l": x, "p": []}}, **span}],
+                       "term": {"k": "switch", "discr": {"k": "move", "pl": {"l": dl, "p": []}}, "targets": [["0", done], ["1", push]], "otherwise": done, **span}})
+        blocks.append({"cleanup": cleanup, "stmts": [
+            {"k": "assign", "dst": {"l": pl, "p": []}, "rv": {"k": "use", "op": {"k": "move", "pl": {"l": x, "p": [{"dc": "Some", "vi": 1}, {"f": 0, "n": "0", "of": ""}]}}}, **span},
+            {"k": "assign", "dst": {"l": vr, "p": []}, "rv": vec_ref, **span}],
+            "term": {"k": "call", "callee": vec_callee("push"), "fnop": {"k": "const", "ty": self.UNK_TY, "desc": "Vec::push"}, "args": [{"k": "move", "pl": {"l": vr, "p": []}}, {"k": "move", "pl": {"l": pl, "p": []}}],
+                     "argtys": [], "dst": {"l": ul, "p": []}, "target": hdr, "unwind": unwind, **span}})
+        blocks.append({"cleanup": cleanup, "stmts": done_stmts, "term": dict(goto_t)})
+        blocks[b]["term"] = {"k": "goto", "target": pre, **span, "adaptor": "lazy-collect"}
+        return [pre, hdr, sw, push, done]
+
+    LAZY_CONSUMERS_OK = ("next", "for_each", "collect", "filter", "map", "filter_map", "inspect", "copied", "cloned", "by_ref", "fuse", "into_iter", "size_hint")
+
+    def _note_unexpanded_consumer(self, b, t, callee, locals_, blocks):
+        """Any other consumer of a pipeline with an effectful closure runs that closure out of sight: record it (no verdict is possible)."""
+        d = callee["def"]
+        if not d.startswith("core::iter::Iterator::") or not t["args"]:
+            return
+        m = d.rsplit("::", 1)[1]
+        if m in self.LAZY_CONSUMERS_OK:
+            return
+        stages = self._lazy_chain(t["args"][0], locals_, blocks)
+        if stages and self._chain_effectful(stages):
+            self.lazy_unexpanded.append((self._cur, b, "`%s` on a pipeline with an effectful closure" % m))
 
     def _op_ty(self, op, locals_):
         if op["k"] in ("copy", "move") and not op["pl"]["p"]:
